@@ -445,9 +445,9 @@ CLAIM_TEXT = {
     "C02": ("get_lpm / get_lpm_prefix / get_lpm_mut / set get_lpm equal the longest covering entry of the abstract map for every well-formed arena of at most N slots (value-less nodes anywhere) and every query", "§4 C02"),
     "C03": ("whole traversals from the real constructors (iter, iter_mut, into_iter, keys/values, clone) at N=3 with a probe prefix, plus Init/Step obligations on injected stacks: each entry once, ascending, fused", "§4 C03"),
     "C04": ("len()/is_empty() delta of every mutator equals the abstract delta from every well-formed, count-consistent state of at most N slots; includes Entry handles, clone, collect and mutable views", "§4 C04"),
-    "C05": ("union / union_mut: Init obligation on the real constructors for every pair of view locations (stack invariant, nothing lost), contract of the pair classifier next_indices, and the first item of a 1+1 traversal; the one-sided descent helpers and the Step of Union::next exceed CBMC's memory and are NOT decided (DESIGN.md §6)", "§4 C05"),
-    "C06": ("intersection / intersection_mut: Init on the real constructors for every pair of view locations, helper contracts (no common entry pruned), and the Step of next() from every stack satisfying the stack invariant (2+2 slots)", "§4 C06"),
-    "C07": ("difference / covering_difference and their _mut twins: Init on the real constructors for every pair of view locations, helper contracts, Step of CoveringDifference::next (quick) and of the other three iterators (thorough)", "§4 C07"),
+    "C05": ("union / union_mut: Init obligation on the real constructors for every pair of view locations (stack invariant, nothing lost; 2+2 and 3+3 slots), contract of the pair classifier next_indices (3+3, 4+4), and the first item of a 1+1 traversal; the one-sided descent helpers and the Step of Union::next exceed CBMC's memory and are NOT decided (DESIGN.md §6)", "§4 C05"),
+    "C06": ("intersection / intersection_mut: Init on the real constructors for every pair of view locations (3+3 slots), helper contracts (no common entry pruned; 4+4), and the Step of Intersection::next from every stack satisfying the stack invariant (2+2 slots; IntersectionMut in the thorough tier)", "§4 C06"),
+    "C07": ("difference / covering_difference and their _mut twins: Init on the real constructors for every pair of view locations (3+3 slots), helper contracts (4+4), Step of CoveringDifference::next for calls that finish within two loop bodies (quick, 2+2); unbounded Step of all four iterators in the thorough tier", "§4 C07, §9"),
     "C08": ("LPM annotations: the constructors of union / difference / difference_mut seed exactly the true longest matches for every pair of view locations (Init, S4), the first union item carries the true match; inheritance across next() steps is decided for difference (thorough) and not for union", "§4 C08"),
     "C09": ("get_spm / get_spm_prefix / cover / cover_keys / cover_values / set twins vs the covering entries of the abstract map (each once, increasing length, first = spm, last = lpm, fused)", "§4 C09"),
     "C10": ("children / children_mut / into_children start stacks and a whole traversal, remove_children step, retain step with an observing predicate (once per entry, exactly the rejected entries removed)", "§4 C10"),
